@@ -79,7 +79,7 @@ func firstDiff(a, b string) map[string]any {
 }
 
 func runC01(r *core.Run) {
-	r.SetRule("typed-AST program generator, 8 profiles (arith, ctrl, scope, calls, coll, objs, pkgs, stdlib) plus hand-written sentinel programs; the same files are compiled by go build GOARCH=386 and loaded by goatlang. non-trivial = accepted by the Go compiler, ran to completion (or to a planted panic) and printed at least 3 lines; distinct by source text")
+	r.SetRule("typed-AST program generator, 8 profiles (arith, ctrl, scope, calls, coll, objs, pkgs, stdlib) plus hand-written sentinel programs and wide-frame programs (functions with 100-300 locals); the same files are compiled by go build GOARCH=386 and loaded by goatlang. non-trivial = accepted by the Go compiler, ran to completion (or to a planted panic) and printed at least 3 lines; distinct by source text")
 	r.Assume("the Go toolchain (GOARCH=386) is the definition of Go semantics with a 32-bit int; map iteration order, out-of-range float->int conversions and struct-reference printing are kept unobservable by the generator (Go leaves them unspecified / C14 defines them differently)")
 	perProfile := r.N(120, 2500)
 	var progs []*gen.Program
@@ -93,6 +93,11 @@ func runC01(r *core.Run) {
 	}
 	for _, s := range sentinelPrograms(id) {
 		progs = append(progs, s)
+		id++
+	}
+	// wide frames: 100-300 locals per function (slot numbers beyond 7 and 8 bits, beyond the number of globals)
+	for i := 0; i < r.N(10, 150); i++ {
+		progs = append(progs, c07WideProgram(core.Derive(r.Seed, "c01-wide", i), id))
 		id++
 	}
 	// programs that witness recorded (open) findings: a mismatch on exactly these is reported as
